@@ -22,6 +22,7 @@ fn main() {
         Some("raw") => service::raw(&args[1..]),
         Some("bind") => service::bind(&args[1..]),
         Some("host-style") => service::host_style(),
+        Some("wire-stream") => service::wire_stream(&args[1..]),
         Some("dispatch") => service::dispatch(),
         Some("host-config") => service::host_config(),
         Some("wire-status") => service::wire_status(&args[1..]),
